@@ -847,28 +847,33 @@ def reserved_cases(tier):
                     yield {"kind": "assign", "name": n, "cfg": cfg, "form": form[0], "scope": scope}
 
 
-def build_reserved_assign(c):
+def build_reserved_assign(c, name=None, readers=False):
     form = [f for f in ASSIGN_FORMS if f[0] == c["form"]][0]
-    n = c["name"]
+    n = name or c["name"]
     if form[1] == "code":
         stmt = ["code", form[2].format(n=n)]
     else:
         stmt = ["ctl", [[h.format(n=n), b] for h, b in form[2]], form[3]]
     scope = c["scope"]
     defs = []
+    stmts = [T("a"), stmt]
+    if readers:
+        # the name is read after the statement: in place, by a top-level def called from there, by a closure
+        stmts += [T("["), E("str(%s)[:12]" % n), T("]"), E("rd19()"), ["def", "cl19", "", [T("("), E("str(%s)[:12]" % n), T(")")]], E("cl19()")]
+        defs.append(["def", "rd19", "", [T("{"), E("str(%s)[:12]" % n), T("}")]])
     if scope == "body":
-        body = [T("a"), stmt]
+        body = stmts
     elif scope == "def":
-        defs.append(["def", "f", "", [T("a"), stmt]])
+        defs.append(["def", "f", "", stmts])
         body = [E("f()")]
     elif scope == "nested":
-        defs.append(["def", "f", "", [["def", "inner", "", [T("a"), stmt]], E("inner()")]])
+        defs.append(["def", "f", "", [["def", "inner", "", stmts], E("inner()")]])
         body = [E("f()")]
     elif scope == "anon":
-        body = [["block", None, [T("a"), stmt]]]
+        body = [["block", None, stmts]]
     else:
         defs.append(["def", "w", "", [E("caller.body()")]])
-        body = [["call", "w()", None, [T("a"), stmt]]]
+        body = [["call", "w()", None, stmts]]
     _, pattrs = _loop_kwargs(c["cfg"])
     f = {"body": body + defs}
     if pattrs:
@@ -898,6 +903,18 @@ def run_reserved(c):
             src = build_reserved_assign(c)
             t = Template(src, **tk)
             out = t.render_unicode(cm=env.cm)
+            if must is False:
+                # an ordinary name: the same program with readers of the name must give what it gives with any other name
+                def _twin(nm):
+                    s_ = build_reserved_assign(c, name=nm, readers=True)
+                    try:
+                        return s_, ("ok", Template(s_, **tk).render_unicode(cm=env.cm))
+                    except Exception as e_:  # noqa
+                        return s_, (type(e_).__name__, str(e_)[:80].replace(nm, "NAME"))
+                s1, o1 = _twin(n)
+                s2, o2 = _twin("item19")
+                if o1 != o2:
+                    return must, ("differs-from-an-ordinary-name", {"with loop": o1, "with item19": o2}), s1
             return must, ("ok", out), src
         page = "<%page enable_loop=\"True\"/>" if pattrs else ""
         src = page + "x<%def name=\"f()\">y</%def>"
@@ -953,7 +970,9 @@ def check_reserved(c, st):
             st.violation("reserved:message-does-not-name:%s" % c["name"], case, "NameConflictError names the word", expected=c["name"], observed=list(obs))
     else:
         # loop disabled: an ordinary name
-        if obs[0] == "NameConflictError":
+        if obs[0] == "differs-from-an-ordinary-name":
+            st.violation("reserved:loop-disabled-not-an-ordinary-name:%s" % what, case, "loop is an ordinary name while disabled: read after its assignment in place, by a top-level def, by a closure", expected=obs[1]["with item19"], observed=obs[1]["with loop"])
+        elif obs[0] == "NameConflictError":
             st.violation("reserved:loop-disabled-still-reserved:%s" % c["kind"], case, "loop is an ordinary name while disabled", expected="no NameConflictError", observed=list(obs))
 
 
